@@ -206,17 +206,18 @@ def real_patterns_match_iff_all_expected_values_are_reported(kind, n):
     ECU's answer"""
     reported = H.pick("reported_value", ALPHABET)
     svc = IdentService(b"\x22\x01")
-    svc.short_name = "ident"
+    # (a legal short name that is no Python identifier: item lists file it under a mangled key)
+    svc.short_name = "91_ident"
     svc._positive_responses = [ValueResponse(reported)]
     expected = [H.pick(f"expected{i}", ALPHABET) for i in range(n)]
     if kind == "ecu":
-        params = [MatchingParameter(expected_value=e, diag_comm_snref="ident", out_param_if_snref="id",
+        params = [MatchingParameter(expected_value=e, diag_comm_snref="91_ident", out_param_if_snref="id",
                                     out_param_if_snpathref=None) for e in expected]
         variant = EcuVariant.__new__(EcuVariant)
         variant.diag_layer_raw = GhostVariantRaw("candidate")
         variant.diag_layer_raw.ecu_variant_patterns = [EcuVariantPattern(matching_parameters=params)]
     else:
-        params = [MatchingBaseVariantParameter(expected_value=e, diag_comm_snref="ident", out_param_if_snref="id",
+        params = [MatchingBaseVariantParameter(expected_value=e, diag_comm_snref="91_ident", out_param_if_snref="id",
                                                out_param_if_snpathref=None, use_physical_addressing_raw=None)
                   for e in expected]
         variant = BaseVariant.__new__(BaseVariant)
@@ -280,6 +281,40 @@ def candidate_uses_its_own_identification_service(parent_kind):
     H.check("C14:the-candidates-own-identification-request-is-issued", issued == [b"\x22\x01"])
     H.check("C14:candidate-reported-iff-its-own-service-reports-the-expected-value",
             matcher.has_match() == (reported == "A"))
+
+
+# the answer of the ECU is decoded by the real Response.decode of a real response description (a static field whose
+# items are padded, followed by the parameter the pattern looks at)
+@harness(props=["C14"], strength="B", family=lambda t, s: [{"use_cache": c} for c in (False, True)],
+         bound="one candidate; a real positive response: constant, static field of two padded items, one byte value; the "
+         "value in the answer symbolic",
+         functions=[VariantMatcher.request_loop, VariantMatcher._ident_response_matches, MatchingParameter.matches],
+         covers=["match", "no-match"], assumes=["A-bitstruct"])
+def answers_are_decoded_by_the_real_response(use_cache):
+    """the expected value is compared with what the real response description decodes from the ECU's answer"""
+    item = B.structure("item", [B.value_param("k", B.dop("u8k", 8))])
+    field = B.static_field("items", item, 2, 2)
+    resp = B.response([B.coded_const("sid", 0x62, 0), B.value_param("items", field), B.value_param("id", B.dop("u8id", 8))])
+    svc = IdentService(b"\x22\x01")
+    svc.short_name = "ident"
+    svc._positive_responses = [resp]
+    variant = EcuVariant.__new__(EcuVariant)
+    variant.diag_layer_raw = GhostVariantRaw("candidate")
+    variant.diag_layer_raw.ecu_variant_patterns = [EcuVariantPattern(matching_parameters=[
+        MatchingParameter(expected_value="5", diag_comm_snref="ident", out_param_if_snref="id",
+                          out_param_if_snpathref=None)])]
+    variant._diag_services = NamedItemList([svc])
+    variant._global_negative_responses = []
+    reported = H.int("id_in_the_answer", 0, 255)
+    answer = bytes([0x62, 0x11, 0x00, 0x22, 0x00]) + bytes([reported])
+    matcher = VariantMatcher([variant], use_cache=use_cache)
+
+    def ecu_step(item):
+        matcher.evaluate(answer)
+
+    H.consume(matcher.request_loop, ecu_step)
+    H.cover("match" if matcher.has_match() else "no-match")
+    H.check("C14:candidate-reported-iff-the-answer-carries-the-expected-value", H.eq(matcher.has_match(), reported == 5))
 
 
 VALUES = {
